@@ -200,7 +200,8 @@ fn with_completer(p: P, it: &J) -> P {
         .collect();
     let mut p = p;
     if !cands.is_empty() {
-        p = p
+        let grp = s(it, "cgroup");
+        let c = p
             .complete(move |v: &Val| {
                 let pre = match v {
                     Val::Bytes(b) => String::from_utf8_lossy(b).to_string(),
@@ -212,8 +213,8 @@ fn with_completer(p: P, it: &J) -> P {
                     .filter(|(c, _)| c.starts_with(&pre))
                     .cloned()
                     .collect::<Vec<_>>()
-            })
-            .boxed();
+            });
+        p = if grp.is_empty() { c.boxed() } else { c.group(dstr(grp)).boxed() };
     }
     match s(it, "complete_shell") {
         "" => p,
